@@ -281,6 +281,9 @@ class MDAMDecoder(nn.Module):
         logprobs, _ = self._one_to_many_logits(
             glimpse_q, glimpse_k, glimpse_v, logit_k, mask, path_index
         )
+        if normalize:
+            # masked actions carry -inf: normalise over the feasible ones
+            logprobs = F.log_softmax(logprobs, dim=-1)
         return logprobs, mask
 
     def _one_to_many_logits(self, query, glimpse_K, glimpse_V, logit_K, mask, path_index):
